@@ -128,6 +128,7 @@ def scenarios(ctx):
         if sc["comp"] in CEXTS:
             sc["spelling"] = rng.choice(["", ".", " ", " ."]) + sc["comp"] + rng.choice(["", " ", "\n"])
         out.append(sc)
+    c08.with_names(out, shift=1)
     if ctx.quick:
         # quick tier: every format once with rotation, every second one at stop, plus the random ones
         out = [sc for j, sc in enumerate(out) if j >= 18 or j % 2 == 0 or j % 4 == 1]
@@ -143,7 +144,7 @@ def run(ctx):
         execs.append((item["scenario"], tuple(item.get("faults", [])), ex))
         ctx.stat("corpus")
     scs = scenarios(ctx)
-    execs += c08.explore(ctx, scs, pairs=(False if ctx.quick else 150))
+    execs += c08.explore(ctx, scs, pairs=(False if ctx.quick else 150), errno_sweep=(2 if ctx.quick else 1))
     for sc, _f, ex in execs[:2]:
         ctx.sample({"scenario": sc, "line": ex.line})
     for sc, _f, ex in execs:
